@@ -14,7 +14,7 @@ ASSUMPTIONS = ["well-formed registries derived by scale-info from replay/src/cor
 BOUNDS = {"quick": {"corpus registries": "all", "settings variants": 3, "retargets": "each field of each item, <= 5 targets"}, "thorough": {"corpus registries": "all", "settings variants": 5, "retargets": "each field, all targets"}}
 OUTSIDE = ["rustc is not run", "registries outside the corpus-derived families"]
 GLOBAL_WITNESSES = ("Ok",)
-SKIP = {"duration", "phantom_field"}
+SKIP = set()
 
 SETS = [STD + Settings(["compact_as_path ::parity_scale_codec::CompactAs", "derive_all ::parity_scale_codec::Encode"]),
         Settings(["mod_name root_mod", "compact_path ::c::Compact", "bits_path ::b::DecodedBits", "alloc ::alloc", "docs 0", "compact_as_path ::c::CompactAs"]),
